@@ -185,7 +185,7 @@ func (e *Eval) applyUF(sf *specFn, defEval *Eval, sc *scope) SV {
 	if sf.F.Uninterpreted {
 		return res
 	}
-	if !sf.structural() {
+	if !sf.F.Opaque && !sf.structural() {
 		e.fail("%s: cannot see that the recursion is structural (some parameter must be replaced by one of its own fields in every recursive application)", sf.F.Name)
 	}
 	if !closed || e.Facts == nil || e.unfold >= maxUnfold {
